@@ -50,8 +50,8 @@ Record chan_layer {V CS : Type} (fold : CS -> list (N * V) -> res CS) (getr : CS
   cl_getr_idem : forall cs cs' r, J cs [] -> getr cs = Ok (cs', r) -> getr cs' = Ok (cs', []);
   cl_getr_nodup : forall cs cs' r, J cs [] -> getr cs = Ok (cs', r) -> NoDup (map fst r);
   (* folding completed tasks is compositional ... *)
-  cl_fold_app : forall cs A B Q cs1, J cs (map fst A ++ map fst B ++ Q) ->
-    fold cs A = Ok cs1 -> fold cs (A ++ B) = fold cs1 B;
+  cl_fold_app : forall cs A B Q cs1 r, J cs (map fst A ++ map fst B ++ Q) ->
+    fold cs A = Ok cs1 -> fold cs (A ++ B) = Ok r -> fold cs1 B = Ok r;
   cl_fold_prefix : forall cs A B Q r, J cs (map fst A ++ map fst B ++ Q) ->
     fold cs (A ++ B) = Ok r -> exists cs1, fold cs A = Ok cs1;
   (* ... and, for the tasks of one step (distinct nodes), independent of their order *)
@@ -656,7 +656,7 @@ Section Susp.
     assert (Hj' : J cs (map fst (outs_of D) ++ map fst (outs_of S) ++ [])).
     { rewrite !outs_of_keys, app_nil_r, <- map_app. eapply H_J_perm; [|exact Hj].
       apply Permutation_map. apply Permutation_sym. exact Hp. }
-    rewrite <- (H_fold_app cs (outs_of D) (outs_of S) [] csD Hj' Hf). rewrite <- outs_of_app.
+    apply (H_fold_app cs (outs_of D) (outs_of S) [] csD call Hj' Hf). rewrite <- outs_of_app.
     apply (H_fold_perm cs (outs_of ts') (outs_of (D ++ S)) []); auto.
     - rewrite outs_of_keys, app_nil_r. exact Hj.
     - rewrite outs_of_keys. exact Hn.
@@ -739,10 +739,10 @@ Section Susp.
     { eapply Permutation_trans; [|exact Hperm]. rewrite <- app_assoc. apply Permutation_app_head. exact Hpx. }
     destruct (fold_part (ls_cs sU) ts' (D0 ++ D) (Sr ++ map si_t Ss) call Hj' Hnd' HpD Hfall) as (csD & HfD).
     assert (HfD1 : fold cs1 (outs_of D) = Ok csD).
-    { rewrite <- HfD. rewrite outs_of_app. symmetry.
-      apply (H_fold_app (ls_cs sU) (outs_of D0) (outs_of D) (map t_key (Sr ++ map si_t Ss))); auto.
-      rewrite !outs_of_keys, app_assoc, <- !map_app. eapply H_J_perm; [|exact Hj'].
-      apply Permutation_map. apply Permutation_sym. exact HpD. }
+    { apply (H_fold_app (ls_cs sU) (outs_of D0) (outs_of D) (map t_key (Sr ++ map si_t Ss)) cs1 csD); auto.
+      - rewrite !outs_of_keys, app_assoc, <- !map_app. eapply H_J_perm; [|exact Hj'].
+        apply Permutation_map. apply Permutation_sym. exact HpD.
+      - rewrite <- outs_of_app. exact HfD. }
     destruct Sr as [|sr0 Sr0] eqn:ESr; [destruct Ss as [|ss0 Ss0] eqn:ESs|].
     - (* every pending body completed: the step of the uninterrupted run is complete *)
       destruct (xres_all_done_gen _ _ _ _ _ Hx eq_refl eq_refl) as [HD Hrs].
